@@ -3,6 +3,7 @@ package query
 import (
 	"context"
 	"errors"
+	"math"
 	"strings"
 	"sync"
 
@@ -244,7 +245,14 @@ func (c *Cursor) Fetch(name parser.Identifier, position int, number int) ([]valu
 	case parser.ABSOLUTE:
 		c.index = number
 	case parser.RELATIVE:
-		c.index = c.index + number
+		switch {
+		case 0 < number && math.MaxInt-number < c.index:
+			c.index = math.MaxInt
+		case number < 0 && c.index < math.MinInt-number:
+			c.index = math.MinInt
+		default:
+			c.index = c.index + number
+		}
 	case parser.FIRST:
 		c.index = 0
 	case parser.LAST:
